@@ -261,6 +261,13 @@ func runCheck(P *Prog, opt CheckOpts) int {
 		exit = 1
 	}
 	for _, r := range violations {
+		if r.Raw != "" && strings.Contains(r.Raw, "(error") && r.Model == "" {
+			first := r.Raw
+			if i := strings.Index(first, "\n"); i > 0 {
+				first = first[:i]
+			}
+			fmt.Printf("SOLVER-ERROR %s: %s\n", r.O.Name, first)
+		}
 		rp := writeReplay(P, replayDir, r)
 		suffix := ""
 		if !r.replayFails {
